@@ -186,7 +186,7 @@ func init() {
 	hx.Register(&hx.Prop{
 		ID:          "C04",
 		Workers:     func(string) int { return 16 },
-		BudgetQuick: 150 * time.Second,
+		BudgetQuick: 300 * time.Second,
 		BudgetThor:  25 * time.Minute,
 		Kind:        "schedules",
 		Rule: "all rule sets of 1..4(5) rules with saliences from {-1, 0, 2, absent} (every pattern incl. ties/negatives) x every failing subset x both policy values x {Execute, ExecuteSelectedRules, ExecuteSelectedRulesWithControl}; the same with five real fault kinds (ill-typed store into an injected field, division by zero, unknown function, unknown field, ill-typed operand) instead of the panicking observer (and by a failing member of a conc block, under every schedule with <=2 preemptions), each call made twice on the same engine (with a data context of its own / on the same builder and data context); " +
